@@ -108,7 +108,12 @@ class Env:
         # every injected frame gets its own frame id: two identical payloads with the same 2-bit PID would be
         # taken for a retransmission by the receiving radio and dropped
         self.nid = getattr(self, "nid", 0) + 1
-        frame = frame[:4] + struct.pack("<H", self.nid) + frame[6:]
+        if getattr(self, "keep_ids", False) and frame[6] == 195:
+            # a real requester keeps its header between attempts: every request of one ID carries the same frame id (the
+            # injecting radio's packet id advances with every payload, so consecutive packets are never taken for repeats)
+            frame = frame[:4] + struct.pack("<H", 40000 + frame[7]) + frame[6:]
+        else:
+            frame = frame[:4] + struct.pack("<H", self.nid) + frame[6:]
         a = self.chip.pipe_addr(pipe)
         x = self.x
         x.ce(False)
@@ -116,6 +121,14 @@ class Env:
         x.x(0xE1)
         x.w(0x0A, *a)
         x.w(0x10, *a)
+        if pipe != 0:
+            # the injecting radio's 2-bit packet id comes round after four payloads; a frame identical to the last one this
+            # radio sent to an acknowledging pipe, with the same packet id, would be dropped by the receiving radio as a
+            # re-transmission (a hazard of this injector, not of the master): one dummy load moves the packet id on
+            if getattr(self, "last_ack_inj", None) == (self.X.pid & 3, bytes(frame)):
+                x.x(0xA0, 0)
+                x.x(0xE1)
+            self.last_ack_inj = (self.X.pid & 3, bytes(frame))
         x.x(0xB0 if pipe == 0 else 0xA0, *frame)
         x.ce(True)
         self.sim.advance(3 * MS)
@@ -151,6 +164,7 @@ def run_case(case):
     tmp = tempfile.mkdtemp(prefix="c16_", dir=os.path.join(boot.VERIF, "out") if os.path.isdir(os.path.join(boot.VERIF, "out")) else None)
     try:
         env = Env(L)
+        env.keep_ids = bool(case.get("keep_ids"))
         m = env.master
         for i, a in case.get("prefill", []):
             m.set_address(i, a)
@@ -352,6 +366,10 @@ def _refuse_release_sweep():
             for how in ("rel_msg", "rel_api"):
                 yield {"prefill": ([[7, via]] if via else []) + kids,
                        "events": [["req", 200, via or None], [how, 0, child], ["req", 201, via or None], ["req", 200, via or None]]}
+            # the refused ID itself tries again after the release (its request is the same frame as before: a requester
+            # keeps its header, frame id included, between attempts)
+            yield {"prefill": ([[7, via]] if via else []) + kids,
+                   "events": [["req", 200, via or None], ["rel_msg", 0, child], ["req", 200, via or None], ["req", 200, via or None]], "keep_ids": True}
 
 
 def _busy_sweep():
@@ -377,7 +395,7 @@ def _strategy():
     ).map(list)
     pre = st.one_of(st.just([]), st.sampled_from([0, 0o1, 0o2, 0o13, 0o444]).flatmap(
         lambda p: st.integers(0, 2).map(lambda lv: ([[60, p]] if p else []) + full_parent(p, leave=lv))))
-    return st.fixed_dictionaries({"prefill": pre, "events": st.lists(ev, min_size=1, max_size=14)})
+    return st.fixed_dictionaries({"prefill": pre, "events": st.lists(ev, min_size=1, max_size=14), "keep_ids": st.booleans()})
 
 
 def _persist_strategy():
